@@ -137,13 +137,36 @@ Definition iso_check (cs : cstore) : bool :=
   end.
 
 (* ---- sequences ------------------------------------------------------------------------------------------- *)
-Inductive cop := Base (o : op) | Canon (c : id) (m : mode) | Move (c : id) (m : mode).
+(* replace_tensor(n, fresh tensor of the same shape): the node's tensor becomes a fresh atom on the
+   same wires; the recorded orthogonality centre is NOT touched (the library never resets it) *)
+Definition scramble (s : store) (n : id) : option store :=
+  match aget n (nodes s), logical s n with
+  | Some nd, Some lt =>
+      let '(s1, a) := fresh_atom s (axes lt) in
+      Some (upd_tensors (upd_nodes s1 (aset n (reset_permutation nd)))
+                        (aset n {| axes := axes lt; atoms := [a]; bnd := [] |}))
+  | _, _ => None
+  end.
+
+Inductive cop := Base (o : op) | Canon (c : id) (m : mode) | Move (c : id) (m : mode) | Scramble (n : id)
+  | Ensure (c : id) (m : mode) | EnsureRoot (m : mode).
+
+(* ensure_orth_center: canonical form if no centre is recorded, a move if it is elsewhere *)
+Definition ensure_center (cs : cstore) (c : id) (m : mode) (rid : id) : option cstore :=
+  if negb (amem c (nodes (fst cs))) then None else
+  match snd cs with
+  | None => canonical_form cs c m rid
+  | Some c0 => if Nat.eqb c0 c then Some cs else move_center cs c m rid
+  end.
 
 Definition cstep (rid : id) (cs : cstore) (o : cop) : option cstore :=
   match o with
   | Base b => match step (fst cs) b with Some s' => Some (s', snd cs) | None => None end
   | Canon c m => canonical_form cs c m rid
   | Move c m => move_center cs c m rid
+  | Scramble n => match scramble (fst cs) n with Some s' => Some (s', snd cs) | None => None end
+  | Ensure c m => ensure_center cs c m rid
+  | EnsureRoot m => match root (fst cs) with Some r => ensure_center cs r m rid | None => None end
   end.
 
 Fixpoint crun_obs (rid : id) (cs : cstore) (ops : list cop) :=
